@@ -323,8 +323,18 @@ func runCallbacks(c *core.Ctx, pool *gjs.Pool, dir string) ([]func(), func()) {
 			files["scenario.json"] = cc.raw + "\n"
 			files["predicted.txt"] = strings.Join(want, "\n") + "\nend=exit\n"
 			files["observed.txt"] = strings.Join(b.JS.Lines, "\n") + "\nend=" + b.JS.End + " " + b.JS.Msg + "\n"
-			key := "callback_guard:" + cc.ctx + ":" + cc.body
-			c.Report(core.Case{Keys: []string{key},
+			// the recorded finding explains exactly one observation: the documented error IS
+			// raised, but the queue entry the failed operation left on the channel makes the
+			// later goroutine meet a ghost partner and the scheduler run $noGoroutine
+			var keys []string
+			ghost := map[string][]string{"recv": {"cb start", "cb threw the documented error"},
+				"send":   {"cb start", "cb threw the documented error", "ghost value 1"},
+				"select": {"cb start", "cb threw the documented error", "ghost value 2"}}
+			if g, ok := ghost[cc.body]; ok && cc.ctx == "loop" && b.JS.End == "jserror" && strings.Contains(b.JS.Msg, "r is not a function") &&
+				strings.Join(b.JS.Lines, "\n") == strings.Join(g, "\n") {
+				keys = []string{"callback_guard:" + cc.ctx + ":" + cc.body}
+			}
+			c.Report(core.Case{Keys: keys,
 				Summary: fmt.Sprintf("Go callback (%s) invoked %s: documented %s and intact goroutine state afterwards (%s), observed %s end=%s %s",
 					cc.body, map[string]string{"loop": "by the JavaScript event loop", "sync": "synchronously from a goroutine"}[cc.ctx], cc.outcome,
 					strings.Join(want, " | "), strings.Join(b.JS.Lines, " | "), b.JS.End, b.JS.Msg),
